@@ -14,7 +14,7 @@ def gen_ops(rng, tree, nmin=1, nmax=6, sv_rate=0.1, dry_rate=0.2, show_rate=0.25
     ops = []
     for _ in range(rng.randint(nmin, nmax)):
         op = {"op": "update", "flags": gp.gen_flags(rng, tree), "delta": gp.gen_clock_delta(rng),
-              "date_flag": rng.random() < 0.4, "dry": rng.random() < dry_rate}
+              "date_flag": rng.random() < 0.4, "dry": rng.random() < dry_rate, "spell": rng.choice([0, 0, 0, 1, 2, 4, 3, 5])}
         if rng.random() < sv_rate:
             op["sv"] = rng.choice(tc.SV_KINDS)
         if rng.random() < 0.15:
@@ -195,7 +195,7 @@ class Life:
             delta = op.get("delta", 0)
             clock = tc.step_clock(ctx, clock, delta, two_digit)
             flags = dict(op.get("flags", {}))
-            argv = ["update"] + gp.flags_to_argv(flags)
+            argv = ["update"] + gp.flags_to_argv(flags, op.get("spell", 0))
             today = clock
             use_date = op.get("date_flag") and not flags.get("pin_date")
             if use_date:
